@@ -11,6 +11,6 @@ CHECK = dict(
     level_note="Trusted: compiler, lib/topo.h, the 150-line record comparison in harness/C08.cpp. Bound: the stated pool (3156 objects quick). Epsilon-invalid seeds are excluded because import is documented to collapse degenerate triangles.",
     runs=[S("seq-fast", quick=200, thorough=1200, workers=8), S("seq-asan", quick=400, thorough=1500, workers=8, tiers=("quick",))],
     rule="cases = pool objects; each runs 4 trips. distinct = canonical geometry hashes; non-trivial = objects with more than one run, tangents, extra properties or merge vectors.",
-    bounds=dict(quick="every 2nd seed as Boolean operand, 8 derivations after Booleans", thorough="all seeds as Boolean operands, all 11 derivations"),
+    bounds=dict(quick="every 2nd seed as Boolean operand, 9 derivations after Booleans (incl. a raised tolerance)", thorough="all seeds as Boolean operands, all 12 derivations"),
     assumptions=COMMON_ASSUME + ["normal channels (runFlags bit 1) are compared to 1e-9 (64 bit) / 1e-5 (32 bit), as the statement allows renormalisation rounding"],
 )
